@@ -15,7 +15,7 @@ func init() {
 			"{0, 1 ms, 0.5, 2, 5, 9.99, 10, 15, 60, 600 s}, Flood toggled only while the sender is idle; every write timestamp (taken in the transport's Write, on the client's own send goroutine) is compared with the reference recurrence " +
 			"B <- max(0, B + c - (t - L)); hold c iff B > 10 s, c = 2 s + n/120 s, evaluated in interval arithmetic (n in [len, len+2], 1 us slack) so that neither CRLF counting nor division order is demanded; lines sent with Flood set " +
 			"must not be delayed; the stated window bound is checked on every run of consecutive flood-protected lines as well. A sequence is non-trivial when the penalty crossed 10 s in both directions and floored at zero; " +
-			"One step in eight is the PONG owed to a server PING (requested when the sender is idle). A third of the sequences negotiate capabilities (three registration lines); fewer written than issued lines after a million virtual seconds is a violation; real-time rounds close a connection during a hold, stay quiet past its end, reconnect and judge the first registration line against the penalty computed from the measured instants - once more under GODEBUG=asynctimerchan=1. distinct_nontrivial = distinct (crossings up, crossings down, floorings, held bucket, length bucket) cells among those.",
+			"One step in eight is the PONG owed to a server PING (requested when the sender is idle). A third of the sequences negotiate capabilities (three registration lines); fewer written than issued lines after a million virtual seconds is a violation; real-time rounds close a connection during a hold, stay quiet past its end, reconnect and judge the first registration line against the penalty computed from the measured instants - once more under GODEBUG=asynctimerchan=1. Config.Timeout is drawn per sequence (1m, 0, 500ms, 3s, 5s: shorter than one line's charge and than the longest hold); the in-memory connection honours write deadlines. distinct_nontrivial = distinct (crossings up, crossings down, floorings, held bucket, length bucket) cells among those.",
 		Assumptions: []string{
 			"virtual time: the claim is about the library's arithmetic and sleeping discipline, not the kernel's timers; built with go1.26.8 instead of go1.23.5 (same source, different compiler)",
 			"t for a line is max(issue time, completion of the previous write), exact in the bubble",
